@@ -199,7 +199,8 @@ theorem instsOf_isEmpty_iff {L : List DNode} {sid : Nat} : (instsOf L sid).isEmp
 /-- the facts about a level `L` (as `lyd_validate_final_r` sees it) and its explicit part `E` that the node lemmas use -/
 structure LvCnt (E L : List DNode) : Prop where
   cnt : ∀ sid, hasInst E sid = true → (instsOf L sid).length = (instsOf E sid).length
-  len : L.length ≤ uint32Max
+  /-- the explicit sibling list is shorter than 2³² (the C counts instances in a `uint32_t`) -/
+  len : E.length ≤ uint32Max
 
 theorem LvCnt.len_eq {E L : List DNode} (h : LvCnt E L) {sid : Nat} (hh : hasInst L sid = hasInst E sid) :
     (instsOf L sid).length = (instsOf E sid).length := by
@@ -208,8 +209,10 @@ theorem LvCnt.len_eq {E L : List DNode} (h : LvCnt E L) {sid : Nat} (hh : hasIns
   · have he' : hasInst E sid = false := by simpa using he
     rw [instsOf_len_zero he', instsOf_len_zero (hh.trans he')]
 
-theorem LvCnt.insts_le {E L : List DNode} (h : LvCnt E L) (sid : Nat) : (instsOf L sid).length ≤ uint32Max :=
-  Nat.le_trans (List.length_filter_le _ _) h.len
+theorem LvCnt.insts_le {E L : List DNode} (h : LvCnt E L) {sid : Nat} (hh : hasInst L sid = hasInst E sid) :
+    (instsOf L sid).length ≤ uint32Max := by
+  rw [h.len_eq hh]
+  exact Nat.le_trans (List.length_filter_le _ _) h.len
 
 theorem uniqueOut_nil (X : SchemaX) (o : VOpts) (cx : Cx) (sibs : List DNode) (k : STree) (hu : X.uniques = []) :
     uniqueOut X o cx sibs k = {} := by
@@ -269,31 +272,26 @@ theorem node_sound (k : STree) (hk : k.info.kind ≠ .choice) (hs : saneData k =
         simp only [hkind, Bool.and_eq_true, Bool.or_eq_true, beq_iff_eq] at he hs hH
         have hmm := mmSaneB_spec hs.2
         simp only [STree.info] at hmm
-        have hmo := minmaxOut_mem X.base o cx L (.mk s i ks) hmm.1 hmm.2 (hc.insts_le s) e he
-        simp only [STree.info, STree.sid] at hmo
-        have hlen : (instsOf L s).length = (instsOf E s).length := by
-          rcases hs.1 with hd | hd
-          · apply hc.len_eq
-            rw [hH]; simp [hd]
-          · exfalso
-            rcases hmo with ⟨_, h2⟩ | ⟨_, h2, _⟩
-            · rw [hd.1] at h2; omega
-            · exact h2 hd.2
-        rw [hlen] at hmo
-        rcases hmo with ⟨h1, h2⟩ | ⟨h1, h2, h3⟩
-        · rw [h1]; simp [h2]
-        · rw [h1]; simp [h2, h3]
+        rcases hs.1 with hd | hd
+        · have hHH : hasInst L s = hasInst E s := by rw [hH]; simp [hd]
+          have hmo := minmaxOut_mem X.base o cx L (.mk s i ks) hmm.1 hmm.2 (hc.insts_le hHH) e he
+          simp only [STree.info, STree.sid] at hmo
+          rw [hc.len_eq hHH] at hmo
+          rcases hmo with ⟨h1, h2⟩ | ⟨h1, h2, h3⟩
+          · rw [h1]; simp [h2]
+          · rw [h1]; simp [h2, h3]
+        · exfalso
+          unfold minmaxOut at he
+          simp [STree.info, hd.1, hd.2] at he
       | list =>
         simp only [hkind] at he hs hH
         rw [uniqueOut_nil X o cx L _ hu, Out.append_empty] at he
         have hmm := mmSaneB_spec hs
         simp only [STree.info] at hmm
-        have hmo := minmaxOut_mem X.base o cx L (.mk s i ks) hmm.1 hmm.2 (hc.insts_le s) e he
+        have hHH : hasInst L s = hasInst E s := by rw [hH]; simp
+        have hmo := minmaxOut_mem X.base o cx L (.mk s i ks) hmm.1 hmm.2 (hc.insts_le hHH) e he
         simp only [STree.info, STree.sid] at hmo
-        have hlen : (instsOf L s).length = (instsOf E s).length := by
-          apply hc.len_eq
-          rw [hH]; simp
-        rw [hlen] at hmo
+        rw [hc.len_eq hHH] at hmo
         rcases hmo with ⟨h1, h2⟩ | ⟨h1, h2, h3⟩
         · rw [h1]; simp [h2]
         · rw [h1]; simp [h2, h3]
